@@ -198,3 +198,7 @@ impl From<Value> for Kind {
         (&value).into()
     }
 }
+
+#[cfg(kani)]
+#[path = "/verif/kani/kind.rs"]
+mod kani_verif;
